@@ -447,7 +447,11 @@ double cmb_timeseries_median(const struct cmb_timeseries *tsp)
 {
     cmb_assert_release(tsp != NULL);
     cmb_assert_release(((struct cmb_dataset *)tsp)->cookie == CMI_INITIALIZED);
-    cmb_assert_release(tsp->wa != NULL);
+    if (tsp->wa == NULL) {
+        /* As cmb_dataset_median() */
+        cmb_logger_warning(stderr, "Cannot take median without any data.");
+        return 0.0;
+    }
 
     struct cmb_timeseries tmp_ts = { 0 };
     const uint64_t un = cmb_timeseries_copy(&tmp_ts, tsp);
@@ -487,8 +491,12 @@ void cmb_timeseries_fivenum_print(const struct cmb_timeseries *tsp,
 {
     cmb_assert_release(tsp != NULL);
     cmb_assert_release(((struct cmb_dataset *)tsp)->cookie == CMI_INITIALIZED);
-    cmb_assert_release(tsp->wa != NULL);
     cmb_assert_release(fp != NULL);
+    if (tsp->wa == NULL) {
+        /* As cmb_dataset_fivenum_print() */
+        cmb_logger_warning(fp, "No data to display in five-number summary");
+        return;
+    }
 
     struct cmb_timeseries tmp_ts = { 0 };
     const uint64_t un = cmb_timeseries_copy(&tmp_ts, tsp);
